@@ -169,6 +169,11 @@ let handle (w : string list) : string =
   | ["F"; ns; l] -> "F " ^ fmt_list "," (Tags.filter_restricted is_letter is_number (list_of' l) (list_of' ns)) ^ " same"
   | ["R"; ns; o; n] -> "R " ^ b2s (Tags.restricted_tags_equal is_letter is_number (list_of' o) (list_of' n) (list_of' ns)) ^ " same"
   | ["TS"; ns; mx; init; ops] -> ts_run ns mx init ops
+  | ["D"; o; n] ->
+    let (o, n) = (list_of' o, list_of' n) in
+    let ((a, r), i) = Tags.string_slice_delta o n in
+    let (o', n') = TagState.delta_args_after o n in
+    "D " ^ fmt_list "," a ^ " " ^ fmt_list "," r ^ " " ^ fmt_list "," i ^ " " ^ fmt_list "," o' ^ " " ^ fmt_list "," n'
   | ["G"; ns; own; terms] -> "G " ^ b2s (Tags.masked_gate is_letter is_number (list_of' own) (list_of' terms) (list_of' ns))
   | ["S"; l] -> "S " ^ fmt_list "," (Tags.sort_strings (list_of' l))
   | _ -> "?"
